@@ -308,16 +308,18 @@ impl Pipeline {
         let start_time = Instant::now();
         self.stats.items_in_flight.fetch_add(1, Ordering::Relaxed);
 
-        let result = timeout(self.config.stage_timeout, stage.process(input))
-            .await
-            .map_err(|_| ZiporaError::configuration("stage timeout"))?;
+        let outcome = timeout(self.config.stage_timeout, stage.process(input)).await;
+
+        // The item has left the pipeline whether it succeeded, failed or timed out
+        self.stats.items_in_flight.fetch_sub(1, Ordering::Relaxed);
+
+        let result = outcome.map_err(|_| ZiporaError::configuration("stage timeout"))?;
 
         let processing_time = start_time.elapsed().as_micros() as u64;
         self.stats
             .total_processing_time_us
             .fetch_add(processing_time, Ordering::Relaxed);
         self.stats.total_processed.fetch_add(1, Ordering::Relaxed);
-        self.stats.items_in_flight.fetch_sub(1, Ordering::Relaxed);
 
         result
     }
@@ -428,6 +430,10 @@ impl Pipeline {
                         .fetch_add(processing_time, Ordering::Relaxed);
                     stage_stats.processed.fetch_add(1, Ordering::Relaxed);
                     stage_stats.active_items.fetch_sub(1, Ordering::Relaxed);
+                    // The item has left this stage whether it succeeded, failed or timed out
+                    pipeline_stats
+                        .items_in_flight
+                        .fetch_sub(1, Ordering::Relaxed);
 
                     match result {
                         Ok(Ok(output)) => {
@@ -449,10 +455,6 @@ impl Pipeline {
                             break;
                         }
                     }
-
-                    pipeline_stats
-                        .items_in_flight
-                        .fetch_sub(1, Ordering::Relaxed);
                 }
 
                 drop(output_tx); // Signal end of stream
